@@ -132,7 +132,10 @@ def _widen(rng, c):
     r = rng.random
     if r() < 0.3:
         var["fmtU"] = [[l for l in t if r() < 0.5] for t in opranks]
-    if zranks and r() < 0.15:
+        if "univ" in c:     # shape 101: keep a single uncompressed rank (nested ones cost 101**k iterations)
+            flat = [(i, l) for i, t in enumerate(var["fmtU"]) for l in t][:1]
+            var["fmtU"] = [[l for (j, l) in flat if j == i] for i in range(len(opranks))]
+    if zranks and r() < 0.15 and "univ" not in c:
         var["zU"] = [l for l in zranks if r() < 0.6]
     if c["declared"] and not c.get("tdiv") and r() < 0.2:
         var["shapes"] = [c["n"] + rng.choice([0, 2, 5]) for _ in range(k)]
